@@ -184,6 +184,7 @@ func c18Int(dg []int, h int) (msg, sig string) {
 }
 
 func runC18(c *ev.Ctx) {
+	defer sizeSweep(c, "C18")
 	maxLen := 5
 	if c.Thorough() {
 		maxLen = 6
